@@ -393,6 +393,9 @@ func c14Histories(tier string) []wParams {
 		{Dir: "up", Tree: "small3"}, {Dir: "down", Tree: "small3"},
 		{Dir: "up", Tree: "small3", ServerNoListen: true}, {Dir: "down", Tree: "small3", ServerNoListen: true},
 		{Dir: "up", Tree: "one:R:21000", Stop: &wStop{Side: "client", Step: 150}},
+		// the server fails on its own (a write error): its failure line travels over the tunnel
+		{Dir: "up", Tree: "one:R:21000", Local: &wLocalFault{Side: "server", Hook: "fileWrite", K: 1, Kind: "err"}},
+		{Dir: "down", Tree: "small3", Kind: "badpath"},
 	}
 	for _, a := range tk {
 		for _, b := range tk {
@@ -523,7 +526,7 @@ func init() {
 		ID:    "C14",
 		Level: "exploration",
 		Rule: "(i) all 1152 client actions (binary x directory x fork x protocol 1..9 x newline x tunnel x confirm) x 6 representative server configurations and all 3456 server configurations (every option subset x bufsize x timeout x pane width x compress x server inside tmux or not) x 8 representative actions through the real relay's handshake, outside tmux and (a subset) inside tmux; " +
-			"(ii) every sequence of 1..2 (quick) / 1..3 (thorough) transfers over {upload, download, refused, failed on the client, failed on the server, Ctrl-C keep, Ctrl-C delete} through one and two relay instances, each followed by a transparency probe, then a transfer that must succeed; the same with tunnel connectors installed and every sequence of two transfers over {tunnelled up/down, in-band up/down (the server could not listen), Ctrl-C} before an in-band and a tunnelled final transfer; " +
+			"(ii) every sequence of 1..2 (quick) / 1..3 (thorough) transfers over {upload, download, refused, failed on the client, failed on the server, Ctrl-C keep, Ctrl-C delete} through one and two relay instances, each followed by a transparency probe, then a transfer that must succeed; the same with tunnel connectors installed and every sequence of two transfers over {tunnelled up/down, in-band up/down (the server could not listen), Ctrl-C, failed on the server, failed on the client} before an in-band and a tunnelled final transfer; " +
 			"(iii) every cut position inside the last protocol message of a transfer on the wire the relay reads, and every set of 2 (quick) / 2..7 (thorough) read boundaries inside its first 8 bytes",
 		Assumptions: []string{"escape tables are not enumerated as server configuration: a relay never lets binary mode be negotiated without a tunnel, so no real server sends one through it",
 			"CFG equality is judged on what the client decodes (transferConfig), not on the byte form", "'refused' uses a fake zenity on PATH that reports the dialog as cancelled"},
